@@ -178,19 +178,23 @@ def run(c):
         i = idx[rng.randrange(len(idx))]
         e = json.loads(lines[i]); e["len"] = e["len"] + 1
         bad = os.path.join(c.work, "proof_trace_bad1.ndjson")
-        open(bad, "w").writelines(lines[:i] + [json.dumps(e) + "\n"] + lines[i + 1:])
+        open(bad, "w").writelines(lines[:i] + [json.dumps(e) + "\n"] + lines[i + 1:i + 30])
         ok2, m2, _, _ = vlib.validate_trace(SPEC_DIR, "ProofTrace", "ProofTrace.cfg", c.work, bad, timeout=2400)
         if ok2 or m2 != i:
             raise vlib.Infra("binding self-test failed: altered Prove event %d not rejected there (accepted=%s, stopped at %d)" % (i, ok2, m2))
         hon = [k for k in idx if '"incl":true' in lines[k] and k + 1 < len(lines) and '"ev":"Verify"' in lines[k + 1] and '"acc":true' in lines[k + 1]]
         k = hon[rng.randrange(len(hon))]
         bad = os.path.join(c.work, "proof_trace_bad2.ndjson")
-        open(bad, "w").writelines(lines[:k + 1] + ['{"ev":"Verify","acc":false}\n'] + lines[k + 2:])
+        open(bad, "w").writelines(lines[:k + 1] + ['{"ev":"Verify","acc":false}\n'] + lines[k + 2:k + 30])
         ok3, m3, _, _ = vlib.validate_trace(SPEC_DIR, "ProofTrace", "ProofTrace.cfg", c.work, bad, timeout=2400)
         if ok3 or m3 != k + 1:
             raise vlib.Infra("binding self-test failed: rejected honest proof at event %d not refused there (accepted=%s, stopped at %d)" % (k + 1, ok3, m3))
         c.notes.append("self-test: altered Prove answer rejected at event %d, honest proof reported as rejected refused at event %d" % (m2, m3))
     for lvl, cnt in (("trie", c.extra["trie_counts"]), ("statedb", c.extra["statedb_counts"])):
-        n = {k: v for k, v in cnt.items() if k.startswith("note:")}
+        vs_coded = sum(v for k, v in cnt.items() if k.startswith("note:real-vs-coded-model"))
+        vs_design = sum(v for k, v in cnt.items() if k.startswith("note:real-vs-design-model"))
+        c.notes.append("%s level: the real verifier's verdict on the forged messages differs from the as-coded model (oddities O1, O2) in %d cases, "
+                       "from the design model in %d cases" % (lvl, vs_coded, vs_design))
+        n = {k: v for k, v in cnt.items() if k.startswith("note:") and "-model:" not in k}
         if n:
             c.notes.append("%s level, informational counters: %s" % (lvl, json.dumps(n, sort_keys=True)))
